@@ -77,6 +77,14 @@ def _from_coo(x, compressed_axes=None, idx_dtype=None):
     return ((data, indices, indptr), shape, compressed_axes, x.fill_value)
 
 
+def _canonical_scipy(x):
+    """A scipy CSR/CSC matrix with sorted, duplicate-free indices (a copy if ``x`` is not)."""
+    if not x.has_canonical_format:
+        x = x.copy()
+        x.sum_duplicates()
+    return x
+
+
 class GCXS(SparseArray, NDArrayOperatorsMixin):
     r"""
     A sparse multidimensional array.
@@ -209,11 +217,11 @@ class GCXS(SparseArray, NDArrayOperatorsMixin):
 
     @classmethod
     def from_scipy_sparse(cls, x, /, *, fill_value=None):
-        if x.format == "csc":
-            return cls((x.data, x.indices, x.indptr), shape=x.shape, compressed_axes=(1,), fill_value=fill_value)
-
-        x = x.asformat("csr")
-        return cls((x.data, x.indices, x.indptr), shape=x.shape, compressed_axes=(0,), fill_value=fill_value)
+        if x.format != "csc":
+            x = x.asformat("csr")
+        x = _canonical_scipy(x)
+        compressed_axes = (1,) if x.format == "csc" else (0,)
+        return cls((x.data, x.indices, x.indptr), shape=x.shape, compressed_axes=compressed_axes, fill_value=fill_value)
 
     @classmethod
     def from_iter(cls, x, shape=None, compressed_axes=None, fill_value=None, idx_dtype=None):
@@ -902,7 +910,7 @@ class CSR(_Compressed2d):
 
     @classmethod
     def from_scipy_sparse(cls, x, /, *, fill_value=None):
-        x = x.asformat("csr", copy=False)
+        x = _canonical_scipy(x.asformat("csr", copy=False))
         return cls((x.data, x.indices, x.indptr), shape=x.shape, fill_value=fill_value)
 
     def transpose(self, axes: None = None, copy: bool = False) -> Union["CSC", "CSR"]:
@@ -934,7 +942,7 @@ class CSC(_Compressed2d):
 
     @classmethod
     def from_scipy_sparse(cls, x, /, *, fill_value=None):
-        x = x.asformat("csc", copy=False)
+        x = _canonical_scipy(x.asformat("csc", copy=False))
         return cls((x.data, x.indices, x.indptr), shape=x.shape, fill_value=fill_value)
 
     def transpose(self, axes: None = None, copy: bool = False) -> Union["CSC", "CSR"]:
